@@ -638,8 +638,375 @@ fn family_gvariant(g: &GLib, seed: u64, cases: u64) -> Family {
     f
 }
 
+// ---------------------------------------------------------------- match rules against a real dbus-daemon
+
+struct Daemon {
+    child: std::process::Child,
+    dir: std::path::PathBuf,
+    address: String,
+}
+
+impl Daemon {
+    fn start() -> Option<Daemon> {
+        use std::io::BufRead;
+        use std::os::unix::process::CommandExt;
+        let dir = std::env::temp_dir().join(format!("xcheck-bus-{}", std::process::id()));
+        let _ = std::fs::remove_dir_all(&dir);
+        std::fs::create_dir_all(&dir).ok()?;
+        let mut cmd = std::process::Command::new("dbus-daemon");
+        cmd.arg("--session").arg("--nofork").arg("--print-address=1").arg(format!("--address=unix:path={}", dir.join("bus").display()));
+        cmd.stdin(std::process::Stdio::null()).stdout(std::process::Stdio::piped()).stderr(std::process::Stdio::null());
+        unsafe {
+            cmd.pre_exec(|| {
+                libc::prctl(libc::PR_SET_PDEATHSIG, libc::SIGKILL);
+                Ok(())
+            });
+        }
+        let mut child = cmd.spawn().ok()?;
+        let mut line = String::new();
+        std::io::BufReader::new(child.stdout.take()?).read_line(&mut line).ok()?;
+        let address = line.trim().to_string();
+        if !address.starts_with("unix:") {
+            let _ = child.kill();
+            return None;
+        }
+        Some(Daemon { child, dir, address })
+    }
+}
+
+impl Drop for Daemon {
+    fn drop(&mut self) {
+        let _ = self.child.kill();
+        let _ = self.child.wait();
+        let _ = std::fs::remove_dir_all(&self.dir);
+    }
+}
+
+const MR_PATHS: &[&str] = &["/", "/a", "/a/b", "/ab", "/a/b/c"];
+const MR_IFACES: &[&str] = &["t.If", "t.Other"];
+const MR_MEMBERS: &[&str] = &["Sig", "Other"];
+const MR_STRINGS: &[&str] = &["x", "a.b", "a.b.c", "a.bc", "/p/", "/p/q", "/p", "", "a", "it's", "a,b", "a\\b"];
+const MR_ARGPATHS: &[&str] = &["/p/", "/p", "/p/q", "/", "/p/q/", "/px"];
+const MR_NAMESPACES: &[&str] = &["a", "a.b", "a.b.c"];
+
+/// Delivery of broadcast signals by dbus-daemon 1.14 (one rule registered by the receiver at a time; a unicast marker
+/// behind every test signal tells the receiver that the daemon is past it) against `matchrule::matches`, and the daemon's
+/// acceptance of rule strings against `matchrule::parse_rule`.
+fn strip_blanks_outside_quotes(s: &str) -> String {
+    let mut out = String::new();
+    let mut q = false;
+    let mut prev = ' ';
+    for c in s.chars() {
+        if c == '\'' && (q || prev != '\\') {
+            q = !q;
+        }
+        prev = c;
+        if c == ' ' && !q {
+            continue;
+        }
+        out.push(c);
+    }
+    out
+}
+
+/// A backslash outside quotes that does not precede an apostrophe: the specification says it "represents itself"; dbus-daemon 1.14
+/// additionally takes the character after it literally (so `\\,` does not end a value and `\\\\'` is two backslashes and an opening quote).
+fn backslash_before_non_apostrophe(s: &str) -> bool {
+    let cs: Vec<char> = s.chars().collect();
+    let mut q = false;
+    let mut i = 0;
+    while i < cs.len() {
+        if q {
+            if cs[i] == '\'' {
+                q = false;
+            }
+        } else if cs[i] == '\'' {
+            q = true;
+        } else if cs[i] == '\\' {
+            if cs.get(i + 1) == Some(&'\'') {
+                i += 1;
+            } else {
+                return true;
+            }
+        }
+        i += 1;
+    }
+    false
+}
+
+/// Constraints dbus-daemon puts on a rule beyond the grammar of the string.
+fn daemon_stricter(r: &vref::matchrule::RefRule) -> Option<&'static str> {
+    let mut idx: Vec<u8> = r.args.iter().map(|(i, _)| *i).chain(r.arg_paths.iter().map(|(i, _)| *i)).collect();
+    if r.arg0ns.is_some() {
+        idx.push(0);
+    }
+    let n = idx.len();
+    idx.sort();
+    idx.dedup();
+    if idx.len() != n {
+        return Some("daemon-rejects-two-conditions-on-one-argument");
+    }
+    let bad = |v: &Option<String>, ok: fn(&[u8]) -> bool| v.as_ref().map_or(false, |s| !ok(s.as_bytes()));
+    if bad(&r.sender, rn::valid_bus_name) || bad(&r.destination, rn::valid_bus_name) || bad(&r.interface, rn::valid_interface_name) || bad(&r.member, rn::valid_member_name)
+        || bad(&r.path, rn::valid_object_path) || bad(&r.path_namespace, rn::valid_object_path)
+        || r.arg0ns.as_ref().map_or(false, |s| !(rn::valid_interface_name(s.as_bytes()) || rn::valid_member_name(s.as_bytes())))
+    {
+        return Some("daemon-validates-names-in-values");
+    }
+    None
+}
+
+fn family_matchrules(seed: u64, cases: u64) -> Option<(Family, Family)> {
+    use ffi::Arg;
+    use vref::matchrule::{matches, parse_rule, RefRule};
+    let fns = ffi::BusFns::open()?;
+    let daemon = Daemon::start()?;
+    let r = fns.connect(&daemon.address).ok()?;
+    let s = fns.connect(&daemon.address).ok()?;
+    let t = fns.connect(&daemon.address).ok()?;
+    let (w_owned, w_other, w_nobody) = ("t.w.Owned", "t.w.Other", "t.w.Nobody");
+    if !s.request_name(w_owned) || !t.request_name(w_other) {
+        return None;
+    }
+    // drain what the daemon sent at connection time
+    s.send(4, "/m", "t.M", "Marker", Some(&r.unique), &[]);
+    r.read_until("Marker", 5000)?;
+    let mut rng = Rng::new(seed ^ 0x3a7c);
+    let mut f = Family::default();
+    let mut g = Family::default();
+    for case in 0..cases {
+        // ---- a rule
+        let mut rule = RefRule::default();
+        match rng.below(6) {
+            0 => rule.msg_type = Some(msg::METHOD_CALL),
+            1 | 2 => {}
+            _ => rule.msg_type = Some(msg::SIGNAL),
+        }
+        if rng.chance(1, 3) {
+            rule.sender = Some(match rng.below(6) {
+                0 | 1 => s.unique.clone(),
+                2 => t.unique.clone(),
+                3 => w_owned.to_string(),
+                4 => w_other.to_string(),
+                _ => w_nobody.to_string(),
+            });
+        }
+        if rng.chance(1, 3) {
+            rule.interface = Some(rng.pick(MR_IFACES).to_string());
+        }
+        if rng.chance(1, 3) {
+            rule.member = Some(rng.pick(MR_MEMBERS).to_string());
+        }
+        match rng.below(6) {
+            0 | 1 => rule.path = Some(rng.pick(MR_PATHS).to_string()),
+            2 | 3 => rule.path_namespace = Some(rng.pick(MR_PATHS).to_string()),
+            _ => {}
+        }
+        if rng.chance(1, 12) {
+            rule.destination = Some(if rng.bool() { r.unique.clone() } else { t.unique.clone() });
+        }
+        for i in 0..3u8 {
+            if rng.chance(1, 5) {
+                rule.args.push((i, rng.pick(MR_STRINGS).to_string()));
+            } else if rng.chance(1, 6) {
+                rule.arg_paths.push((i, rng.pick(MR_ARGPATHS).to_string()));
+            }
+        }
+        if rng.chance(1, 6) {
+            rule.arg0ns = Some(rng.pick(MR_NAMESPACES).to_string());
+        }
+        let text = rule.to_rule_string();
+        // ---- acceptance of the string (and of a mutated one)
+        let (probe, mutated) = if rng.chance(1, 4) {
+            let mut b: Vec<char> = text.chars().collect();
+            for _ in 0..1 + rng.usize_below(2) {
+                let c = *rng.pick(&['\'', ',', '=', '\\', ' ', 'a', '6', '4']);
+                match rng.below(3) {
+                    0 if !b.is_empty() => {
+                        let p = rng.usize_below(b.len());
+                        b[p] = c;
+                    }
+                    1 if !b.is_empty() => {
+                        let p = rng.usize_below(b.len());
+                        b.remove(p);
+                    }
+                    _ => {
+                        let p = rng.usize_below(b.len() + 1);
+                        b.insert(p, c);
+                    }
+                }
+            }
+            (b.into_iter().collect::<String>(), true)
+        } else {
+            (text.clone(), false)
+        };
+        let theirs = r.add_match(&probe).is_ok();
+        let ours = parse_rule(&probe);
+        if mutated || !theirs || ours.is_err() {
+            if theirs {
+                r.remove_match(&probe);
+            }
+            match (&ours, theirs) {
+                (Ok(_), true) => g.agree(true),
+                (Err(_), false) => g.agree(false),
+                (Ok(_), false) if backslash_before_non_apostrophe(&probe) => g.explained("daemon-takes-the-character-after-a-literal-backslash-literally", json!({"rule": probe})),
+                (Ok(parsed), false) => match daemon_stricter(parsed) {
+                    // vref::matchrule::parse_rule is the GRAMMAR of rule strings; the daemon additionally checks the values
+                    Some(why) => g.explained(why, json!({"rule": probe})),
+                    None => g.unexplained(json!({"rule": probe, "mutated": mutated, "vref_accepts": true, "daemon_accepts": false})),
+                },
+                // dbus-daemon 1.14 treats an empty key as the end of the rule ("=", "type='signal',=x" are accepted); the grammar has no empty key
+                (Err(e), true) if e == "empty key" || parse_rule(&strip_blanks_outside_quotes(&probe)) == Err("empty key".to_string()) => g.explained("daemon-stops-at-an-empty-key", json!({"rule": probe})),
+                // a comma after the last pair is accepted by the daemon
+                (Err(e), true) if e == "trailing comma" => g.explained("daemon-accepts-a-trailing-comma", json!({"rule": probe})),
+                // the daemon skips blanks before a key and between key and '=' (a blank-only rule is the empty rule for it)
+                (Err(_), true) if parse_rule(&strip_blanks_outside_quotes(&probe)).is_ok() || probe.trim().is_empty() => g.explained("daemon-ignores-blanks-around-keys", json!({"rule": probe})),
+                // outside quotes the daemon takes a backslash that does not precede an apostrophe literally TOGETHER WITH the next character, so
+                // `\\'` is two backslashes and an opening quote for it; read left to right as the specification words it, it is a backslash and an escaped apostrophe
+                (Err(_), true) if backslash_before_non_apostrophe(&probe) => g.explained("daemon-takes-the-character-after-a-literal-backslash-literally", json!({"rule": probe})),
+                (Err(e), true) => g.unexplained(json!({"rule": probe, "mutated": mutated, "vref_accepts": false, "vref_reason": e, "daemon_accepts": true})),
+            }
+            continue;
+        }
+        g.agree(true);
+        if ours.as_ref().ok().map(|x| x.canonical()) != Some(rule.canonical()) {
+            g.unexplained(json!({"what": "vref does not parse its own printing back", "rule": probe}));
+        }
+        // ---- a broadcast signal from S: in two cases of three shaped after the rule (then perturbed), so that deliveries are frequent
+        let shaped = rng.chance(2, 3);
+        let keep = |rng: &mut Rng| shaped && !rng.chance(1, 8);
+        let path: String = match (&rule.path, &rule.path_namespace) {
+            (Some(p), _) if keep(&mut rng) => p.clone(),
+            (_, Some(ns)) if keep(&mut rng) => match rng.below(3) {
+                0 => ns.clone(),
+                1 => format!("{}/x", if ns == "/" { "" } else { ns.as_str() }),
+                _ => format!("{}x", if ns == "/" { "/" } else { ns.as_str() }),
+            },
+            _ => rng.pick(MR_PATHS).to_string(),
+        };
+        let path = path.as_str();
+        let iface = match &rule.interface {
+            Some(i) if keep(&mut rng) => MR_IFACES.iter().find(|x| **x == i.as_str()).copied().unwrap_or(MR_IFACES[0]),
+            _ => *rng.pick(MR_IFACES),
+        };
+        let member = match &rule.member {
+            Some(i) if keep(&mut rng) => MR_MEMBERS.iter().find(|x| **x == i.as_str()).copied().unwrap_or(MR_MEMBERS[0]),
+            _ => *rng.pick(MR_MEMBERS),
+        };
+        let nargs = if shaped { 3 } else { rng.usize_below(4) };
+        let mut args = Vec::new();
+        let mut body = Vec::new();
+        for k in 0..nargs {
+            let k = k as u8;
+            // what the rule asks of this argument, if anything
+            let wanted: Option<String> = if let Some((_, v)) = rule.args.iter().find(|(i, _)| *i == k) {
+                Some(v.clone())
+            } else if let Some((_, v)) = rule.arg_paths.iter().find(|(i, _)| *i == k) {
+                Some(match rng.below(4) {
+                    0 => v.clone(),
+                    1 => format!("{}{}", v, if v.ends_with('/') { "q" } else { "/" }),
+                    2 => v.trim_end_matches('/').rsplit_once('/').map(|(a, _)| format!("{a}/")).unwrap_or_else(|| "/".into()),
+                    _ => format!("{v}x"),
+                })
+            } else if k == 0 && rule.arg0ns.is_some() {
+                let ns = rule.arg0ns.clone().unwrap();
+                Some(match rng.below(3) {
+                    0 => ns,
+                    1 => format!("{ns}.z"),
+                    _ => format!("{ns}z"),
+                })
+            } else {
+                None
+            };
+            if let Some(v) = wanted {
+                if keep(&mut rng) {
+                    if v.starts_with('/') && !v.ends_with("//") && (v == "/" || !v.ends_with('/')) && rule.arg_paths.iter().any(|(i, _)| *i == k) && rng.bool() {
+                        args.push(Arg::Path(v.clone()));
+                        body.push(Val::O(v));
+                    } else {
+                        args.push(Arg::Str(v.clone()));
+                        body.push(Val::S(v));
+                    }
+                    continue;
+                }
+            }
+            match rng.below(5) {
+                0 => {
+                    let p = *rng.pick(&["/p", "/p/q", "/", "/px"]);
+                    args.push(Arg::Path(p.to_string()));
+                    body.push(Val::O(p.to_string()));
+                }
+                1 => {
+                    let v = rng.next_u32() % 3;
+                    args.push(Arg::U32(v));
+                    body.push(Val::U(v));
+                }
+                _ => {
+                    let v = rng.pick(MR_STRINGS).to_string();
+                    args.push(Arg::Str(v.clone()));
+                    body.push(Val::S(v));
+                }
+            }
+        }
+        let m = Msg::signal(1, path, iface, member).with_sender(&s.unique).with_body(body);
+        // resolve a well-known sender the way a bus does
+        let mut resolved = rule.clone();
+        let mut unowned = false;
+        if let Some(n) = &rule.sender {
+            if !n.starts_with(':') {
+                match n.as_str() {
+                    x if x == w_owned => resolved.sender = Some(s.unique.clone()),
+                    x if x == w_other => resolved.sender = Some(t.unique.clone()),
+                    _ => unowned = true,
+                }
+            }
+        }
+        let expect = !unowned && matches(&resolved, &m) == Some(true);
+        if !s.send(4, path, iface, member, None, &args) || !s.send(4, "/m", "t.M", "Marker", Some(&r.unique), &[]) {
+            return None;
+        }
+        let Some(seen) = r.read_until("Marker", 20_000) else {
+            f.bump("marker_not_seen");
+            r.remove_match(&text);
+            continue;
+        };
+        r.remove_match(&text);
+        let got = seen.iter().filter(|(t, _, from)| *t == 4 && *from == s.unique).count();
+        f.bump(if expect { "expected_delivery" } else { "expected_no_delivery" });
+        if got == expect as usize {
+            f.agree(expect);
+        } else {
+            f.unexplained(json!({"case": case, "rule": text, "signal": {"path": path, "interface": iface, "member": member, "body": m.body.iter().map(|v| v.show()).collect::<Vec<_>>()},
+                                 "vref_says_delivered": expect, "daemon_delivered": got}));
+        }
+    }
+    Some((f, g))
+}
+
+/// `xcheck --probe-rule <rule> <arg0>...`: does the daemon deliver a signal whose first argument is <arg0> to a receiver holding <rule>?
+fn probe_rule(rule: &str, candidates: &[String]) {
+    let fns = ffi::BusFns::open().expect("libdbus");
+    let daemon = Daemon::start().expect("dbus-daemon");
+    let r = fns.connect(&daemon.address).expect("connect");
+    let s = fns.connect(&daemon.address).expect("connect");
+    s.send(4, "/m", "t.M", "Marker", Some(&r.unique), &[]);
+    r.read_until("Marker", 5000);
+    println!("rule {rule:?}: daemon {}", if r.add_match(rule).is_ok() { "accepts" } else { "REJECTS" });
+    println!("vref: {:?}", vref::matchrule::parse_rule(rule));
+    for c in candidates {
+        s.send(4, "/p", "t.If", "Sig", None, &[ffi::Arg::Str(c.clone())]);
+        s.send(4, "/m", "t.M", "Marker", Some(&r.unique), &[]);
+        let seen = r.read_until("Marker", 5000).unwrap_or_default();
+        println!("  arg0 {c:?}: {}", if seen.iter().any(|(t, _, from)| *t == 4 && *from == s.unique) { "delivered" } else { "not delivered" });
+    }
+}
+
 fn main() {
     let args: Vec<String> = std::env::args().collect();
+    if let Some(i) = args.iter().position(|a| a == "--probe-rule") {
+        probe_rule(&args[i + 1], &args[i + 2..]);
+        return;
+    }
     let get = |k: &str, d: &str| args.iter().position(|a| a == k).and_then(|i| args.get(i + 1)).cloned().unwrap_or(d.to_string());
     let seed: u64 = get("--seed", "1").parse().unwrap();
     let cases: u64 = get("--cases", "100000").parse().unwrap();
@@ -675,6 +1042,17 @@ fn main() {
             report.insert("gvariant_vs_glib".into(), fam.to_json());
         }
         None => missing.push("libglib-2.0.so.0"),
+    }
+    match family_matchrules(seed, (cases / 4).max(1000)) {
+        Some((delivery, acceptance)) => {
+            for (name, fam) in [("matchrule_delivery_vs_dbus_daemon", delivery), ("matchrule_strings_vs_dbus_daemon", acceptance)] {
+                println!("[xcheck] {name}: cases={} accept/accept={} reject/reject={} explained={} unexplained={}",
+                    fam.cases, fam.both_accept, fam.both_reject, fam.explained.values().sum::<u64>(), fam.n_unexplained());
+                bad += fam.n_unexplained();
+                report.insert(name.into(), fam.to_json());
+            }
+        }
+        None => missing.push("dbus-daemon (or it could not be started / talked to)"),
     }
     report.insert("missing_libraries".into(), json!(missing));
     report.insert("unexplained_disagreements_total".into(), json!(bad));
